@@ -202,6 +202,8 @@ pub fn judge(h: &History, recs: &[StepRec]) -> Result<(u32, u32), Failure> {
     let mut pending: Option<(Vec<(u8, usize)>, Vec<Req>, VerifSnapshot, VerifSnapshot, usize, Option<u32>)> = None;
     let mut sticky: Vec<(u8, Vec<u8>)> = vec![];
     let mut sticky_known = true;
+    // sticky answers that did not fit the answering uplink (tolerated later, never required)
+    let mut sticky_late: Vec<u8> = vec![];
     // the join-channel bias of fixed plans may choose channel and data rate of data frames until a
     // channel mask arrives (CFList or an accepted LinkADRReq): until then the data rate on the air is
     // not judged
@@ -216,6 +218,7 @@ pub fn judge(h: &History, recs: &[StepRec]) -> Result<(u32, u32), Failure> {
         if matches!(r.step, Step::Join(_) | Step::JoinAbp | Step::SetSession { .. }) {
             pending = None;
             sticky.clear();
+            sticky_late.clear();
             sticky_known = true;
             bias_possible = h.cfg.join_bias.is_some();
             continue;
@@ -478,13 +481,20 @@ pub fn judge(h: &History, recs: &[StepRec]) -> Result<(u32, u32), Failure> {
                     }
                     // sticky answers for the following uplinks
                     sticky = ans.iter().filter(|a| matches!(a.0, 0x05 | 0x08 | 0x0A)).cloned().collect();
+                    sticky_late.clear();
                     sticky_known = true;
                 } else {
-                    sticky_known = false;
+                    // trailing answers were dropped (15-byte rule): the sticky answers among those that
+                    // were sent are owed again; sticky answers among the dropped ones may or may not
+                    // be made up for later (the statement does not say), so they are tolerated
+                    sticky = ans.iter().filter(|a| matches!(a.0, 0x05 | 0x08 | 0x0A)).cloned().collect();
+                    sticky_late = exp_cids[got_cids.len()..].iter().copied().filter(|c| matches!(c, 0x05 | 0x08 | 0x0A)).collect();
+                    sticky_known = true;
                 }
             } else if sticky_known {
                 // (5) no new downlink was accepted in a Class A window since: exactly the sticky answers
-                if ans != sticky {
+                let tolerated = !sticky_late.is_empty() && ans.len() >= sticky.len() && ans[..sticky.len()] == sticky[..] && ans[sticky.len()..].iter().all(|a| sticky_late.contains(&a.0));
+                if ans != sticky && !tolerated {
                     let fp = if ans.len() < sticky.len() { "sticky/dropped" } else { "sticky/extra-answer" };
                     return Err(Failure::new("stickiness", case(), format!("step {}.{}: uplink carries answers {:02x?}; the sticky answers still owed are {:02x?}\n{}", r.index, r.sub, ans, sticky, render(&recs[ri.saturating_sub(2)..=ri], 3))).with_fp(fp));
                 }
@@ -515,6 +525,7 @@ pub fn judge(h: &History, recs: &[StepRec]) -> Result<(u32, u32), Failure> {
                 let exp = expected_answers(&reqs, fixed);
                 pending = Some((exp, reqs, r.snap_before, r.snap_after, r.index, r.txs.iter().find(|t| !t.join).map(|t| t.rf.bw_hz)));
                 sticky.clear();
+                sticky_late.clear();
             }
         }
     }
@@ -549,7 +560,11 @@ pub fn history_strategy() -> impl Strategy<Value = History> {
         cfg.join_bias = None;
         let reg = Reg::from_name(cfg.region.name()).unwrap();
         let class_c = cfg.front == FrontKind::AsyncClassC;
-        let cmds = || proptest::collection::vec(prop_oneof![3 => valid_cmd(reg), 1 => gen::cmd_strategy(reg)], 1..=6);
+        let cmds = || prop_oneof![
+            6 => proptest::collection::vec(prop_oneof![3 => valid_cmd(reg), 1 => gen::cmd_strategy(reg)], 1..=6),
+            // enough requests for the answers to exceed the 15 bytes of FOpts
+            2 => proptest::collection::vec(prop_oneof![3 => valid_cmd(reg), 2 => Just(Cmd::DevStatusReq), 1 => gen::cmd_strategy(reg)], 7..=15),
+        ];
         let down = (cmds(), any::<bool>(), any::<bool>(), any::<bool>()).prop_map(|(c, in_frm, confirmed, rx2)| {
             let r = if in_frm { Recipe::Auth { delta: 1, confirmed, port: Some(0), payload_len: 0, fopts: vec![], frm_cmds: c, ack: false, fpending: false } } else { Recipe::Auth { delta: 1, confirmed, port: None, payload_len: 0, fopts: c, frm_cmds: vec![], ack: false, fpending: false } };
             if rx2 { RxPlan::rx2(r) } else { RxPlan::rx1(r) }
@@ -602,11 +617,11 @@ fn run_one(h: &History, st: &mut Stats, class: &str) -> Result<(), Failure> {
 
 pub fn run(ctx: &mut Ctx) {
     let thorough = ctx.tier == Tier::Thorough;
-    ctx.rule = "(a00) fixed plans with a join-channel bias (8 sub-bands x 1/2/4/9 retries x OTAA/ABP x 0/1/3 uplinks before) followed by 8 LinkADRReq shapes incl. a mask equal to the one in force: the commanded data rate must be the one on the air from the answering uplink on; (a0) Class C interplay: 5 request bundles x 5 kinds of Class C traffic (accepted plain / confirmed / MAC-bearing, rejected) heard while idle or between the windows of the following uplinks, before and after the answering uplink; (a) field sweeps: every DR x TXPower nibble pair x every ChMaskCntl x mask patterns (single commands and blocks of 2-3), every DLSettings byte x frequency set, every RXTimingSetupReq value, NewChannelReq index x frequency set x DrRange, DlChannelReq index x frequency set, each as an authentic downlink (FOpts or port 0, RX1 or RX2) followed by three uplinks so that answers and stickiness are observed; (b) proptest histories of 2..9 transactions with 1..6 commands per downlink (valid-biased and arbitrary values), uplinks on port 0, rejected frames and Class C frames interleaved; 9 regions, nb/async/async+ClassC. Oracle: answers of the next uplink parsed by the reference codec (order, whole commands, 15-byte rule, only trailing drops, identical LinkADRAns copies); the device's own answer bits folded over the snapshot taken before the downlink must reproduce the snapshot after it (ACK = applied per the reference semantics, NAK = nothing changed); full ACKs of requests in the conservative must-reject set are violations; sticky answers repeat until the next Class A downlink. Non-trivial: history with >= 1 judged downlink carrying requests; distinct by hash".into();
+    ctx.rule = "(a00) fixed plans with a join-channel bias (8 sub-bands x 1/2/4/9 retries x OTAA/ABP x 0/1/3 uplinks before) followed by 8 LinkADRReq shapes incl. a mask equal to the one in force: the commanded data rate must be the one on the air from the answering uplink on; (a0) Class C interplay: 5 request bundles x 5 kinds of Class C traffic (accepted plain / confirmed / MAC-bearing, rejected) heard while idle or between the windows of the following uplinks, before and after the answering uplink; (a) field sweeps: every DR x TXPower nibble pair x every ChMaskCntl x mask patterns (single commands and blocks of 2-3), every DLSettings byte x frequency set, every RXTimingSetupReq value, NewChannelReq index x frequency set x DrRange, DlChannelReq index x frequency set, each as an authentic downlink (FOpts or port 0, RX1 or RX2) followed by three uplinks so that answers and stickiness are observed; (a1) answer overflow: 4..11 mixed requests, and a sticky request at every position among 4..7 DevStatusReq (port-0 payload), followed by uplinks without downlink: the sticky answers that were sent are repeated; (b) proptest histories of 2..9 transactions with 1..6 (one in four: 7..15) commands per downlink (valid-biased and arbitrary values), uplinks on port 0, rejected frames and Class C frames interleaved; 9 regions, nb/async/async+ClassC. Oracle: answers of the next uplink parsed by the reference codec (order, whole commands, 15-byte rule, only trailing drops, identical LinkADRAns copies); the device's own answer bits folded over the snapshot taken before the downlink must reproduce the snapshot after it (ACK = applied per the reference semantics, NAK = nothing changed); full ACKs of requests in the conservative must-reject set are violations; sticky answers repeat until the next Class A downlink. Non-trivial: history with >= 1 judged downlink carrying requests; distinct by hash".into();
     ctx.assumptions = vec![
         "must-reject set is deliberately conservative (RFU ChMaskCntl, undefined/downlink-only DataRate, TXPower index outside the table, mask leaving no usable channel, RX1DROffset above the maximum, undefined RX2 DR, out-of-band frequency, NewChannelReq on default channels / index >= 16 / min>max, DlChannelReq on an undefined channel); everything else may be ACKed or NAKed but must be consistent".into(),
         "masks are compared on the effective set (mask AND defined channels)".into(),
-        "when trailing answers are dropped (15-byte rule) the effect of that downlink is not judged".into(),
+        "when trailing answers are dropped (15-byte rule) the effect of that downlink is not judged; the sticky answers that were sent are still owed to the following uplinks, sticky answers among the dropped ones are tolerated later but not required".into(),
     ];
     let seed = ctx.seed;
     let regions: Vec<RegionId> = REGIONS.to_vec();
@@ -628,7 +643,8 @@ pub fn run(ctx: &mut Ctx) {
             let fs = gen::freq_set(reg);
             let mut rng = SplitMix::new(seed ^ 0xC08 ^ ji as u64);
             let mut emit = |cmds: Vec<Cmd>, st: &mut Stats, class: &str| {
-                let in_frm = rng.below(3) == 0;
+                // (the answer-overflow class needs the room of a port-0 payload for its requests)
+                let in_frm = rng.below(3) == 0 || class == "answer-overflow";
                 let r = if in_frm { Recipe::Auth { delta: 1, confirmed: false, port: Some(0), payload_len: 0, fopts: vec![], frm_cmds: cmds, ack: false, fpending: false } } else { Recipe::auth_cmds(1, cmds) };
                 let plan = if rng.below(4) == 0 { RxPlan::rx2(r) } else { RxPlan::rx1(r) };
                 let up = |rng: &mut SplitMix| Step::Send { port: if rng.below(5) == 0 { 0 } else { 7 }, len: 2, confirmed: false, rx: RxPlan::default() };
@@ -704,6 +720,16 @@ pub fn run(ctx: &mut Ctx) {
                             v.push([Cmd::DevStatusReq, Cmd::RxParamSetupReq { dl_settings: 0, freq: fs[4] }, Cmd::RxTimingSetupReq(2), Cmd::LinkAdrReq { dr: 15, txp: 15, mask: 7, cntl: 0, nbtrans: 1 }, Cmd::DlChannelReq { idx: 0, freq: fs[5] }][(j + k) % 5].clone());
                         }
                         emit(v, st, "answer-overflow");
+                    }
+                    // ... and a sticky answer at every position among status answers that fill the 15 bytes
+                    for n in 4..=7usize {
+                        for pos in 0..=n {
+                            for sticky in [Cmd::RxTimingSetupReq(3), Cmd::RxParamSetupReq { dl_settings: 0, freq: fs[4] }, Cmd::DlChannelReq { idx: 0, freq: fs[5] }] {
+                                let mut v = vec![Cmd::DevStatusReq; n];
+                                v.insert(pos, sticky);
+                                emit(v, st, "answer-overflow");
+                            }
+                        }
                     }
                 }
             }
